@@ -386,3 +386,69 @@ func (c *Conn) Sync(timeout time.Duration) error {
 	}
 	return nil
 }
+
+// PutMailbox records (or renames) a remote mailbox without telling gluon (used together with Push of a
+// MailboxCreated/MailboxUpdated update, so that later calls of gluon for that ID find it).
+func (c *Conn) PutMailbox(id imap.MailboxID, name []string) {
+	c.mu.Lock()
+	defer c.mu.Unlock()
+	c.Mailboxes[id] = append([]string{}, name...)
+}
+
+// DropMailbox forgets a remote mailbox without telling gluon.
+func (c *Conn) DropMailbox(id imap.MailboxID) {
+	c.mu.Lock()
+	defer c.mu.Unlock()
+	delete(c.Mailboxes, id)
+}
+
+// Reopen makes a closed connector usable again for a server restarted on the same directories (the remote
+// state is kept, a fresh update channel is created).
+func (c *Conn) Reopen() {
+	c.mu.Lock()
+	defer c.mu.Unlock()
+	if c.closed {
+		c.closed = false
+		c.updateCh = make(chan imap.Update, 64)
+	}
+}
+
+// PutMessage records a remote message (without telling gluon) and returns its new ID.
+func (c *Conn) PutMessage(literal []byte, mboxes []imap.MailboxID) imap.MessageID {
+	c.mu.Lock()
+	defer c.mu.Unlock()
+	id := c.NewMessageID()
+	m := &Msg{Literal: append([]byte{}, literal...), Flags: imap.NewFlagSet(), Mboxes: map[imap.MailboxID]bool{}}
+	for _, b := range mboxes {
+		m.Mboxes[b] = true
+	}
+	c.Messages[id] = m
+	return id
+}
+
+// ClearFailNext drops every scheduled one-shot failure.
+func (c *Conn) ClearFailNext() {
+	c.mu.Lock()
+	defer c.mu.Unlock()
+	c.FailNext = map[string][]error{}
+}
+
+// RenameInferiors renames (without telling gluon) every remote mailbox below oldName to the same place below newName.
+func (c *Conn) RenameInferiors(oldName, newName []string) {
+	c.mu.Lock()
+	defer c.mu.Unlock()
+	for id, n := range c.Mailboxes {
+		if len(n) <= len(oldName) {
+			continue
+		}
+		match := true
+		for i := range oldName {
+			if n[i] != oldName[i] {
+				match = false
+			}
+		}
+		if match {
+			c.Mailboxes[id] = append(append([]string{}, newName...), n[len(oldName):]...)
+		}
+	}
+}
